@@ -17,6 +17,9 @@ The fallback after a failed fetch is the **repaired** rule (fix F16: any failure
 fetch falls back to an existing cached copy); `legacy := true` gives the rule as it was
 written (`ctx.Err() != nil && cacheFound`), kept for the documented counterexample.
 
+One invocation reads one remote node here; `Remote.Chain` adds the remote Taskfile that node's
+content includes (second node, same `readRemote`, one shared `--timeout` deadline).
+
 Contents and checksums are abstract numbers; `sha : Content → Sum` is a parameter about
 which nothing is assumed.  Time is a logical clock (`now`), advanced by `Step.dt`.
 -/
